@@ -182,7 +182,7 @@ def run(chk, only=None):
         "distinct_nontrivial": vlib.distinct([(r["scenario"]["ops"], r["scenario"]["faults"], r["scenario"]["refuse"],
                                               r["scenario"]["version"], [(e.get("cmd"), e.get("res")) for e in r["events"] or []])
                                              for r in nontriv]),
-        "rule": "48 enumerated scenarios (one branch x every single fault position START/STMT/END/PREPARE/COMMIT/ROLLBACK, both refusal "
+        "rule": "72 enumerated scenarios (one branch x every single fault position START/STMT/END/PREPARE/COMMIT/ROLLBACK, both refusal "
                 "kinds, commit/rollback, holder/stranger, server 5.7.30 and 8.0.30) + %d seeded programs (1-4 branches on fresh "
                 "connections, interleaved phase two, 0-3 faults, refusals, three server versions) + %d malformed-stream programs "
                 "(hostile xids, zero/negative branch ids, up to 6 faults, dangling/duplicate phase two) through the real XA proxy; "
